@@ -40,16 +40,16 @@ Definition dom_poison (ev : expr -> value) (d : dom) : bool :=
 Definition doms_eval (ev : expr -> value) (ds : list (N * dom)) : list (N * list value) :=
   flat_map (fun nd => match dom_eval ev (snd nd) with Some vs => [(fst nd, vs)] | None => [] end) ds.
 
-Definition mk_args (ps : list N) (vs : list value) : option ctx :=
+Definition mk_args (ps : list (N * C16.Model.ftype)) (vs : list value) : option ctx :=
   if Nat.ltb (length vs) (length ps) then None
-  else Some (fold_left (fun c pv => ctx_set (fst pv) (snd pv) c) (combine ps vs) []).
+  else Some (fold_left (fun c pv => ctx_set (fst (fst pv)) (coerced1 (snd (fst pv)) (snd pv)) c) (combine ps vs) []).
 
 Fixpoint assoc (k : N) (l : list (N * value)) : option value :=
   match l with [] => None | (k', v) :: r => if N.eqb k k' then Some v else assoc k r end.
-Fixpoint mk_named (ps : list N) (nvs : list (N * value)) (acc : ctx) : option ctx :=
+Fixpoint mk_named (ps : list (N * C16.Model.ftype)) (nvs : list (N * value)) (acc : ctx) : option ctx :=
   match ps with
   | [] => Some acc
-  | p :: r => match assoc p nvs with Some v => mk_named r nvs (ctx_set p v acc) | None => None end
+  | (p, t) :: r => match assoc p nvs with Some v => mk_named r nvs (ctx_set p (coerced1 t v) acc) | None => None end
   end.
 
 (* some / every: three-valued or / and over the results (a non-boolean result counts as null) *)
